@@ -132,7 +132,7 @@ def _stub_pyplot(plt):
 
 
 def _warm_up():
-    d = tempfile.mkdtemp(prefix='dsim-warm-', dir='/dev/shm')
+    d = tempfile.mkdtemp(prefix='dsim-warm-', dir=K.scratch_root())
     old_tmp = tempfile.tempdir
     tempfile.tempdir = d
     cwd = os.getcwd()
